@@ -910,6 +910,20 @@ func ModifyRegister(register *object.Register, in ast.Node) (ast.Node, bool) {
 	case *ast.FunctionLiteral:
 		// skip lambda/functions in functions.
 		return nil, false
+	case *ast.InfixExpression:
+		// The name is assigned to (x = ..., x := ..., for x = ...): it may receive a non integer
+		// or be redefined, so it must stay a regular variable.
+		if t := in.Token.Type(); t == token.ASSIGN || t == token.DEFINE {
+			if r, ok := in.Left.(*object.Register); ok && r == register {
+				return nil, false
+			}
+		}
+	case *ast.Builtin:
+		if in.Type() == token.DEL && len(in.Parameters) == 1 {
+			if r, ok := in.Parameters[0].(*object.Register); ok && r == register {
+				return nil, false
+			}
+		}
 	}
 	return in, true
 }
